@@ -178,4 +178,32 @@ CHECKS["C10"] = dict(
     thorough=dict(workers=16, cases=4000, maxsize=60),
 )
 
+CHECKS["C07"] = dict(
+    harness="C07_wire", sources=["props/C07_wire.cc", "shim/shim.c", "pki/pki.cc"], variant="asan",
+    level="exploration", engine="rapidcheck (structure-aware wire generator) + ASan/UBSan",
+    technique="structure-aware fuzzing of the wire input with a reference frame decoder, EPROTO "
+              "stickiness, TLS never-usable oracle and a heap-growth bound, under ASan/UBSan",
+    level_text="A raw (non-XCM) TCP peer - for TLS an in-harness OpenSSL endpoint over memory BIOs "
+               "whose wire bytes can be mutated, or plain garbage instead of a handshake - writes "
+               "generated streams (valid frames, frames announcing 0 / 65536 / 2^31 / 2^32-1 / "
+               "random lengths, truncated frames, raw garbage) in generated segmentations (1..5 "
+               "byte dribbles included) to real XCM tcp/btcp/tls/btls connections on the accept "
+               "and on the connect side, interleaved with receive/send/finish/attribute calls, "
+               "ended by nothing, FIN or RST. Every result is judged against a reference decoder "
+               "of what was written. Sampled.",
+    level_note="Trusts the reference decoder (30 lines) and ASan's allocation statistics for the "
+               "memory bound (1 MiB above the level at establishment, with streams up to 5 MiB "
+               "written while the application does not drain).",
+    rule=("case = transport x XCM role x TLS phase (genuine peer / garbage instead of handshake / "
+          "one mutation at wire offset 0..2500) x up to 80 steps (append frame or garbage, peer "
+          "writes a segment, XCM receive/send/finish/attr) x final FIN/RST/none. Non-trivial = the "
+          "stream contains a frame with an illegal length, or a segment shorter than a header, or "
+          "TLS garbage/mutation. Distinct = FNV-1a of the plan."),
+    assumptions=["receive capacity 0 is outside the domain",
+                 "for TLS garbage shorter than a record the connection may legitimately stay in "
+                 "EAGAIN; only 'never usable, never delivers' is demanded there"],
+    quick=dict(workers=16, cases=200, maxsize=80),
+    thorough=dict(workers=16, cases=6000, maxsize=80),
+)
+
 NOT_APPLICABLE = []
